@@ -144,6 +144,7 @@ class ProcGlobals:
         self.slots = slots
         self.values = copy.deepcopy(values)  # one deepcopy: objects shared between two names stay shared
         self.environ = dict(os.environ)  # a spawned worker starts with a copy of the environment and owns it afterwards
+        self.cwd = None  # None = leave the working directory alone; workers of a re-used executor may have been started elsewhere
 
     @staticmethod
     def capture():
@@ -153,6 +154,7 @@ class ProcGlobals:
         g.slots = module_state_baseline()[0]
         g.values = [getattr(o, a, None) for o, a in g.slots]
         g.environ = dict(os.environ)
+        g.cwd = os.getcwd()
         return g
 
     def install(self):
@@ -163,6 +165,8 @@ class ProcGlobals:
                 setattr(o, a, v)
             except (AttributeError, TypeError):
                 pass
+        if self.cwd is not None and os.path.isdir(self.cwd) and os.getcwd() != self.cwd:
+            os.chdir(self.cwd)
         if dict(os.environ) != self.environ:
             for k in list(os.environ):
                 if k not in self.environ:
@@ -301,6 +305,7 @@ class Sim:
         self.quara_dir = repo_quara_dir
         self.line_files = tuple(line_files)
         self.mutators = mutators  # {file basename: {qualified function names}}: line events only inside these (hot lines)
+        self.worker_cwd = None
         self.max_yields = max_yields
         self.total_yields = 0
         self.out_dir = out_dir
@@ -349,6 +354,12 @@ class Sim:
         if k not in self.proc_pools:
             base = self.proc_seed * 1000 + k * 37
             self.proc_pools[k] = [ProcWorker(i, (base + i * 7919 + 1) % (2 ** 32), base + i * 104729 + 3) for i in range(k)]
+            if self.worker_cwd:
+                # fault kind worker_started_elsewhere: loky re-uses its executor, whose processes keep the working directory
+                # they were started in - not necessarily the caller's current one
+                for w in self.proc_pools[k]:
+                    w.globals.cwd = self.worker_cwd
+                self.bump(self.faults, "worker_started_elsewhere")
         return self.proc_pools[k]
 
     def _snapshot_dir(self):
